@@ -120,7 +120,8 @@ class DstWorld(World):
         if k == "md":
             if c["md_only"]:
                 return pdus.build("MD", self.pdu_conf(st), closure=c["closure"], cks="null", size=0, sname=None, dname=None)
-            return pdus.build("MD", self.pdu_conf(st), closure=c["closure"], cks=c["cks"], size=c["size"], sname=core.SRC_PATH,
+            # md_size: the file size announced by the Metadata PDU differs from the real one (0 = unbounded file, the EOF tells the size)
+            return pdus.build("MD", self.pdu_conf(st), closure=c["closure"], cks=c["cks"], size=self.cfg.get("md_size", c["size"]), sname=core.SRC_PATH,
                               dname=core.dest_path_requested(c))
         if k == "fd":
             _, off, ln, tag = ev
